@@ -70,58 +70,105 @@ Qed.
 
 (* ================================================================ one branch: finite case analyses *)
 
-(* the server state agrees with the position in the property's language *)
+(* the server state agrees with the position in the property's language; a branch the
+   server no longer knows (None) is compatible with every position: finished, never started,
+   or dropped together with its session *)
 Definition agree (s : sst) (d : dbst) : Prop :=
   match d with
   | Some (Active, true) => s = SA
   | Some (Idle, true) => s = SI
   | Some (Prepared, _) => s = SP
   | Some (_, false) => False
-  | None => s = S0 \/ s = SC \/ s = SR
+  | None => True
   end.
 
 Ltac bools := repeat match goal with b : bool |- _ => destruct b end.
 
-Lemma auto_local_legal detach fS fM fE fE2 fP fR :
+(* strict legality of everything one autocommit branch issues, on a free session *)
+Lemma auto_local_legal detach slow fS fM fE fE2 fP fR fR2 :
   (fE = true -> fE2 = false) ->
-  let '(t, d, kept, o) := auto_local detach fS fM fE fE2 fP fR in
+  let '(t, d, kept, o, act) := auto_local detach false slow fS fM fE fE2 fP fR fR2 in
   exists s, legal_from S0 t = Some s /\ agree s d /\ (is_prepared d = true -> kept = true).
 Proof.
   intro H. destruct fE; [rewrite (H eq_refl)|]; bools; cbn; eexists; (split; [reflexivity|]); cbn; auto.
 Qed.
 
-Lemma auto_local_accepted detach fS fM fE fE2 fP fR :
-  let '(t, d, kept, o) := auto_local detach fS fM fE fE2 fP fR in
-  exists s, accepted_from S0 t = Some s /\ agree s d /\ (is_prepared d = true -> kept = true).
+Lemma auto_local_accepted detach busy slow fS fM fE fE2 fP fR fR2 :
+  let '(t, d, kept, o, act) := auto_local detach busy slow fS fM fE fE2 fP fR fR2 in
+  exists s, accepted_from S0 t = Some s /\ agree s d.
 Proof. bools; cbn; eexists; (split; [reflexivity|]); cbn; auto. Qed.
 
-(* C17_failure on one branch, every fault combination and both server families *)
-Lemma auto_local_failure detach fS fM fE fE2 fP fR :
-  let '(t, d, kept, o) := auto_local detach fS fM fE fE2 fP fR in
-  (* truthful outcome: success exactly when the branch is prepared, after START stmt END PREPARE all accepted *)
-  (o = OOk <-> is_prepared d = true) /\
-  (o = OOk -> t = [(START, ROk); (STMT, ROk); (END_, ROk); (PREPARE, ROk)]) /\
+(* C17_failure on one branch: every fault combination, both server families, free or busy session *)
+Lemma auto_local_failure detach busy slow fS fM fE fE2 fP fR fR2 :
+  let '(t, d, kept, o, act) := auto_local detach busy slow fS fM fE fE2 fP fR fR2 in
   (o = OOk \/ o = OErr) /\
-  (* any failure before a successful PREPARE: an error is returned, nothing is ever committed, and
-     (unless the compensating command is made to fail too) the branch is rolled back or never started *)
-  ((fS || fM || fE || fP) = true -> o = OErr /\ ~ In (COMMIT, ROk) t) /\
-  ((fS || fM || fE || fP) = true -> fR = false -> (fE = true -> fE2 = false) -> (fM = true -> fE = false) ->
-     d = None /\ (fS = true \/ last t (START, ROk) = (ROLLBACK, ROk))).
+  ~ In (COMMIT, ROk) t /\
+  (* truthful outcome (the timeout's own rollback not made to fail): success exactly when the branch is
+     prepared, after START stmt END PREPARE all accepted *)
+  ((slow = true -> fR = false) ->
+     (o = OOk <-> is_prepared d = true) /\
+     (o = OOk -> t = [(START, ROk); (STMT, ROk); (END_, ROk); (PREPARE, ROk)])) /\
+  (* any failure before a successful PREPARE (a busy session and a timeout included): an error is returned *)
+  ((slow = true -> fR = false) -> (busy || slow || fS || fM || fE || fP) = true -> o = OErr) /\
+  (* and, unless a compensating command is made to fail too, the branch is rolled back or never started *)
+  ((busy || slow || fS || fM || fE || fP) = true -> fR = false -> (fE = true -> fE2 = false) -> (fM = true -> fE = false) ->
+     d = None /\ (fS = true \/ busy = true \/ In (ROLLBACK, ROk) t)).
 Proof.
   bools; cbn; repeat split; auto; try discriminate; try (intros; discriminate);
-    try (intros [H|H]; discriminate H); try (intros; exfalso; auto; fail); intros;
-    try (match goal with H : ?a = ?a -> _ = _ |- _ => specialize (H eq_refl); discriminate H end);
-    intuition (try discriminate; auto).
+    try (intros [H|H]; discriminate H); intros;
+    repeat match goal with H : ?a = ?a -> _ |- _ => specialize (H eq_refl) end;
+    try discriminate; intuition (try discriminate; auto).
 Qed.
 
-Lemma p2_local_legal detach f d kept commit stranger s :
-  agree s d -> is_prepared d = true -> (is_prepared d = true -> kept = true) ->
-  let '(cr, d', _) := p2_local detach f d kept commit stranger in
-  exists s', legal_from s [cr] = Some s' /\ agree s' d' /\ accepted_from s [cr] = Some s'.
+(* the branch-timeout path: a timed-out branch returns an error to the caller and is rolled back *)
+Lemma auto_local_timeout detach fE2 fP fR2 :
+  let '(t, d, kept, o, act) := auto_local detach false true false false false fE2 fP false fR2 in
+  o = OErr /\ d = None /\ kept = false /\ act = false /\
+  exists r, t = [(START, ROk); (STMT, ROk); (END_, ROk); (ROLLBACK, ROk); (ROLLBACK, r)] /\ r <> ROk.
+Proof. bools; cbn; repeat split; auto; eexists; split; try reflexivity; discriminate. Qed.
+
+(* ... and the listed finding xa.timeout.rollback-fault: when the timeout's own XA ROLLBACK is made
+   to fail, success is reported for a branch that the second XA ROLLBACK rolled back *)
+Lemma auto_local_timeout_refuted :
+  exists detach fE2 fP,
+    let '(t, d, kept, o, act) := auto_local detach false true false false false fE2 fP true false in
+    o = OOk /\ is_prepared d = false /\ In (ROLLBACK, ROk) t.
+Proof. exists false, false, false. cbn. repeat split; auto 10. Qed.
+
+Lemma auto_local_sfail detach busy slow fS fM fE fE2 fP fR fR2 :
+  let '(t, d, kept, o, act) := auto_local detach busy slow fS fM fE fE2 fP fR fR2 in
+  start_ok t = false -> d = None /\ o = OErr.
+Proof. bools; cbn; auto; discriminate. Qed.
+
+(* phase two, any server state: the accepted commands stay in the language *)
+Lemma p2_local_accepted detach f d kept busy commit s :
+  agree s d ->
+  let '(cr, d') := p2_local detach f d kept busy commit in
+  exists s', accepted_from s [cr] = Some s' /\ agree s' d'.
 Proof.
-  intros A P K. destruct d as [[[] a]|]; try discriminate P. cbn in A. subst s.
-  rewrite (K eq_refl). destruct a, f, commit, stranger; cbn; eexists; (split; [reflexivity|]); cbn; auto.
+  intros A. destruct d as [[[] []]|]; cbn in A; try contradiction; subst;
+    destruct f, kept, busy, commit; cbn; eexists; (split; [reflexivity|]); cbn; auto.
 Qed.
+
+(* phase two for a PREPARED branch on the connection the keeper names (or, detached, on a free
+   one), and a rollback request for a branch that never started: strictly legal, the identifier
+   is the request's *)
+Lemma p2_local_legal detach f d kept busy commit s :
+  agree s d ->
+  (is_prepared d = true /\ (attached d = true -> kept = true) /\ (attached d = false -> busy = false))
+  \/ (d = None /\ s = S0 /\ commit = false) ->
+  let '(cr, d') := p2_local detach f d kept busy commit in
+  exists s', legal_from s [cr] = Some s' /\ agree s' d'.
+Proof.
+  intros A [(P & K & B)|(-> & -> & ->)].
+  - destruct d as [[[] a]|]; try discriminate P. cbn in A. subst s. destruct a.
+    + rewrite (K eq_refl). destruct f, busy, commit; cbn; eexists; (split; [reflexivity|]); cbn; auto.
+    + rewrite (B eq_refl). destruct f, kept, commit; cbn; eexists; (split; [reflexivity|]); cbn; auto.
+  - destruct f, kept, busy; cbn; eexists; (split; [reflexivity|]); cbn; auto.
+Qed.
+
+Lemma agree_kill s d : agree s d -> agree s (srv_kill d).
+Proof. destruct d as [[[] []]|]; cbn; auto. Qed.
 
 (* ================================================================ the journal of a run *)
 
@@ -132,13 +179,6 @@ Lemma cmds_of_app id a b : cmds_of id (a ++ b) = cmds_of id a ++ cmds_of id b.
 Proof.
   induction a as [|e a IH]; cbn; [reflexivity|].
   destruct e; auto. destruct (bytes_eqb id0 id); cbn; now rewrite IH.
-Qed.
-
-Lemma legal_from_app t1 : forall s t2,
-  legal_from s (t1 ++ t2) = match legal_from s t1 with Some s' => legal_from s' t2 | None => None end.
-Proof.
-  induction t1 as [|[c r] t1 IH]; intros s t2; cbn; [reflexivity|].
-  destruct (sstep s c); destruct r; auto.
 Qed.
 
 Lemma accepted_from_app t1 : forall s t2,
@@ -161,86 +201,6 @@ Proof.
   destruct (bytes_eqb id id') eqn:E; [apply bytes_eqb_eq in E; contradiction|]. exact IH.
 Qed.
 
-Lemma tr_emit s conn id t id' :
-  tr (emit s conn id t) id' = tr s id' ++ (if bytes_eqb id id' then t else []).
-Proof.
-  unfold tr, emit; cbn [s_jour]. rewrite rev_app_distr, rev_involutive, cmds_of_app.
-  destruct (bytes_eqb id id') eqn:E.
-  - apply bytes_eqb_eq in E. subst. now rewrite cmds_of_emit_same.
-  - rewrite cmds_of_emit_other; [reflexivity|]. intro X. subst. now rewrite bytes_eqb_refl in E.
-Qed.
-
-Lemma tr_add_nonsql s e id : (forall c k i r, e <> ESql c k i r) -> tr (add_ev s e) id = tr s id.
-Proof.
-  intro H. unfold tr, add_ev; cbn [s_jour]. cbn [List.rev]. rewrite cmds_of_app.
-  destruct e; cbn; try now rewrite app_nil_r. exfalso. eapply H. reflexivity.
-Qed.
-
-(* which notion of legality the invariant carries: strict (issued commands) or accepted only *)
-Definition lfrom (strict : bool) := if strict then legal_from else accepted_from.
-
-Lemma lfrom_app strict t1 s t2 :
-  lfrom strict s (t1 ++ t2) = match lfrom strict s t1 with Some s' => lfrom strict s' t2 | None => None end.
-Proof. destruct strict; [apply legal_from_app | apply accepted_from_app]. Qed.
-
-Definition rec_ok (strict : bool) (s : st) (r : br) : Prop :=
-  exists q, lfrom strict S0 (tr s (rid r)) = Some q /\ agree q (r_db r) /\
-            (r_fin r = false -> is_prepared (r_db r) = true -> r_kept r = true).
-
-Record Inv (strict : bool) (E : env) (s : st) : Prop := {
-  i_recs : forall r, In r (s_brs s) -> rec_ok strict s r;
-  i_bids : forall r, In r (s_brs s) -> exists k, (k < s_nreg s)%nat /\ r_b r = e_bid E k;
-  i_other : forall id, id <> [] -> (forall r, In r (s_brs s) -> rid r <> id) -> tr s id = [];
-  i_ops : forall r, In r (s_brs s) -> (r_op r < s_nop s)%nat;
-  i_nodup : NoDup (map r_op (s_brs s));
-  i_ids : forall r1 r2, In r1 (s_brs s) -> In r2 (s_brs s) -> rid r1 = rid r2 -> r_op r1 = r_op r2
-}.
-
-Lemma inv_init strict E : Inv strict E init.
-Proof. split; cbn; try tauto; try constructor. Qed.
-
-Lemma find_br_in t l r : find_br t l = Some r -> In r l /\ r_op r = t.
-Proof.
-  induction l as [|x l IH]; cbn; [discriminate|].
-  destruct (Nat.eqb (r_op x) t) eqn:E.
-  - intro H; injection H as ->. apply PeanoNat.Nat.eqb_eq in E. auto.
-  - intro H. destruct (IH H). auto.
-Qed.
-
-Lemma put_br_map_op r' l : map r_op (put_br r' l) = map r_op l.
-Proof.
-  induction l as [|y l IH]; cbn; [reflexivity|].
-  destruct (Nat.eqb (r_op y) (r_op r')) eqn:E; cbn; [|now rewrite IH].
-  apply PeanoNat.Nat.eqb_eq in E. now rewrite E.
-Qed.
-
-Lemma put_br_in r' l x : NoDup (map r_op l) -> In x (put_br r' l) ->
-  x = r' \/ (In x l /\ r_op x <> r_op r').
-Proof.
-  induction l as [|y l IH]; cbn; [tauto|]. intro ND. inversion ND as [|? ? Hn ND']; subst.
-  destruct (Nat.eqb (r_op y) (r_op r')) eqn:E.
-  - apply PeanoNat.Nat.eqb_eq in E. intros [<-|H]; [now left|].
-    right. split; [now right|]. intro X. apply Hn. rewrite E, <- X. now apply in_map.
-  - apply PeanoNat.Nat.eqb_neq in E. intros [<-|H]; [right; split; [now left|assumption]|].
-    destruct (IH ND' H) as [->|[H1 H2]]; [now left|]. right. split; [now right|assumption].
-Qed.
-
-Section Step.
-Variable strict : bool.
-Variable E : env.
-Hypothesis Hbid : uniq_bid E.
-Hypothesis Hend : strict = true -> no_double_end E.
-
-Lemma auto_local_l detach fS fM fE fE2 fP fR :
-  (strict = true -> fE = true -> fE2 = false) ->
-  let '(t, d, kept, o) := auto_local detach fS fM fE fE2 fP fR in
-  exists s, lfrom strict S0 t = Some s /\ agree s d /\ (is_prepared d = true -> kept = true).
-Proof.
-  intro H. destruct strict; cbn [lfrom].
-  - apply auto_local_legal. auto.
-  - apply auto_local_accepted.
-Qed.
-
 Lemma cmds_rev_cons id e j : cmds_of id (List.rev (e :: j)) = cmds_of id (List.rev j) ++ cmds_of id [e].
 Proof. cbn [List.rev]. apply cmds_of_app. Qed.
 
@@ -256,46 +216,142 @@ Qed.
 
 Ltac norm :=
   unfold tr in *;
-  cbn [s_jour s_brs s_nreg s_nop s_nconn finish set_brs bump_conn bump_reg add_ev emit set_cnt] in *;
+  cbn [s_jour s_brs s_nreg s_nop s_nconn finish set_brs bump_conn bump_reg add_ev emit set_conn set_opconn] in *;
   rewrite ?cmds_rev_emit, ?cmds_rev_cons; cbn [cmds_of]; rewrite ?app_nil_r.
 
 Lemma neq_eqb a b : a <> b -> bytes_eqb a b = false.
 Proof. intro H. destruct (bytes_eqb a b) eqn:X; [apply bytes_eqb_eq in X; contradiction|reflexivity]. Qed.
 
-Lemma step_auto s g : Inv strict E s -> Inv strict E (do_auto E s g).
+Definition rec_ok (s : st) (r : br) : Prop :=
+  exists q, accepted_from S0 (tr s (rid r)) = Some q /\ agree q (r_db r).
+
+Record Inv (E : env) (s : st) : Prop := {
+  i_recs : forall r, In r (s_brs s) -> rec_ok s r;
+  i_bids : forall r, In r (s_brs s) -> exists k, (k < s_nreg s)%nat /\ r_b r = e_bid E k;
+  i_other : forall id, id <> [] -> (forall r, In r (s_brs s) -> rid r <> id) -> tr s id = [];
+  i_ops : forall r, In r (s_brs s) -> (r_op r < s_nop s)%nat;
+  i_nodup : NoDup (map r_op (s_brs s));
+  i_ids : forall r1 r2, In r1 (s_brs s) -> In r2 (s_brs s) -> rid r1 = rid r2 -> r_op r1 = r_op r2
+}.
+
+Lemma inv_init E : Inv E init.
+Proof. split; cbn; try tauto; try constructor. Qed.
+
+Lemma find_br_in t l r : find_br t l = Some r -> In r l /\ r_op r = t.
+Proof.
+  induction l as [|x l IH]; cbn; [discriminate|].
+  destruct (Nat.eqb (r_op x) t) eqn:E.
+  - intro H; injection H as ->. apply PeanoNat.Nat.eqb_eq in E. auto.
+  - intro H. destruct (IH H). auto.
+Qed.
+
+Lemma nodup_op_eq l x r : NoDup (map r_op l) -> In x l -> In r l -> r_op x = r_op r -> x = r.
+Proof.
+  induction l as [|y l IH]; intros ND Hx Hr Eo; [destruct Hx|].
+  cbn in ND. inversion ND as [|? ? Hn ND']; subst.
+  destruct Hx as [->|Hx], Hr as [->|Hr]; auto.
+  - exfalso. apply Hn. rewrite Eo. now apply in_map.
+  - exfalso. apply Hn. rewrite <- Eo. now apply in_map.
+Qed.
+
+(* what phase two does to the list of branch records: identities stay, the target's server state
+   becomes d', any other record keeps its server state or loses its session *)
+Definition p2_list (strg : bool) (c t : nat) (d' : dbst) (rel : option nat) (l : list br) : list br :=
+  let l1 := if strg then upd_br unkeep t (kill_conn c l) else l in
+  let l2 := upd_br (fun x => set_db_kept d' (r_kept x) true x) t l1 in
+  match rel with Some o => upd_br unkeep o l2 | None => l2 end.
+
+Lemma p2_list_in strg c t d' rel l x : In x (p2_list strg c t d' rel l) ->
+  exists y, In y l /\ r_op x = r_op y /\ r_xid x = r_xid y /\ r_b x = r_b y /\
+            ((r_op y = t /\ r_db x = d') \/ (r_op y <> t /\ (r_db x = r_db y \/ r_db x = srv_kill (r_db y)))).
+Proof.
+  unfold p2_list, upd_br, kill_conn. intro H.
+  destruct strg, rel; repeat (apply in_map_iff in H; destruct H as (? & <- & H));
+    (eexists; split; [eassumption|]);
+    repeat match goal with |- context[Nat.eqb ?a ?b] => destruct (Nat.eqb a b) eqn:?; cbn end;
+    repeat match goal with H : Nat.eqb _ _ = true |- _ => apply PeanoNat.Nat.eqb_eq in H
+                      | H : Nat.eqb _ _ = false |- _ => apply PeanoNat.Nat.eqb_neq in H end;
+    cbn in *; repeat split; auto; try (exfalso; congruence).
+Qed.
+
+Lemma p2_list_ops strg c t d' rel l : map r_op (p2_list strg c t d' rel l) = map r_op l.
+Proof.
+  unfold p2_list, upd_br, kill_conn. destruct strg, rel; rewrite ?map_map; apply map_ext; intro y;
+    repeat match goal with |- context[Nat.eqb ?a ?b] => destruct (Nat.eqb a b) eqn:?; cbn end; reflexivity.
+Qed.
+
+Lemma p2_list_has strg c t d' rel l y : In y l -> exists x, In x (p2_list strg c t d' rel l) /\ rid x = rid y /\ r_op x = r_op y.
+Proof.
+  intro H. unfold p2_list, upd_br, kill_conn.
+  destruct strg, rel; eexists; (split; [repeat (apply in_map; try eassumption); eassumption|]);
+    repeat match goal with |- context[Nat.eqb ?a ?b] => destruct (Nat.eqb a b) eqn:?; cbn end; split; reflexivity.
+Qed.
+
+Section Step.
+Variable E : env.
+Hypothesis Hbid : uniq_bid E.
+
+Lemma step_skip s o : Inv E s -> Inv E (finish s o).
+Proof.
+  intros [I1 I2 I3 I4 I5 I6]. split; norm.
+  - exact I1.
+  - exact I2.
+  - exact I3.
+  - intros r Hr. pose proof (I4 r Hr). lia.
+  - exact I5.
+  - exact I6.
+Qed.
+
+Lemma inv_wrap s s' : s_brs s' = s_brs s -> s_jour s' = s_jour s -> s_nreg s' = s_nreg s -> s_nop s' = s_nop s ->
+  Inv E s -> Inv E s'.
+Proof.
+  intros B J R O [I1 I2 I3 I4 I5 I6]. unfold rec_ok, tr in *. split; rewrite ?B, ?J, ?R, ?O; auto.
+  - intros r Hr. unfold rec_ok, tr. rewrite J. auto.
+  - intros id N H. unfold tr. rewrite J. auto.
+Qed.
+
+Lemma step_auto s g via slow : Inv E s -> Inv E (do_auto E s g via slow).
 Proof.
   intros I. unfold do_auto.
-  destruct (e_refuse E (s_nreg s)).
-  - (* refused: nothing but the registration event *)
-    destruct I as [I1 I2 I3 I4 I5 I6]. split; norm; auto.
-    + intros r Hr. destruct (I1 r Hr) as (q & A & B & C). exists q. norm. auto.
+  set (reuse := match via with Some t => lookup t (s_opconn s) | None => None end).
+  set (conn := match reuse with Some c => c | None => s_nconn s end).
+  set (sp := set_opconn match reuse with Some _ => s | None => bump_conn s end conn).
+  assert (Ip : Inv E sp).
+  { apply (inv_wrap s); auto; unfold sp; destruct reuse; reflexivity. }
+  assert (Rp : s_nreg sp = s_nreg s) by (unfold sp; destruct reuse; reflexivity).
+  assert (Op : s_nop sp = s_nop s) by (unfold sp; destruct reuse; reflexivity).
+  destruct (c_active (get_cst s conn)); [now apply step_skip|].
+  clearbody sp. clear I. rewrite <- Rp. 
+  destruct (e_refuse E (s_nreg sp)).
+  - destruct Ip as [I1 I2 I3 I4 I5 I6]. split; norm; auto.
+    + intros r Hr. destruct (I1 r Hr) as (q & A & B). exists q. norm. auto.
     + intros r Hr. destruct (I2 r Hr) as (k & K1 & K2). exists k. split; [lia|auto].
     + intros id N O. specialize (I3 id N O). norm. exact I3.
     + intros r Hr. pose proof (I4 r Hr). lia.
-  - set (xid := e_xid E g). set (b := e_bid E (s_nreg s)).
-    set (s1 := add_ev (bump_conn (bump_reg s)) (EReg xid true b)).
-    pose proof (auto_local_l (e_detach E) (e_fault E START (s_cnt s1 START)) (e_fault E STMT (s_cnt s1 STMT))
+  - set (xid := e_xid E g). set (b := e_bid E (s_nreg sp)).
+    set (s1 := add_ev (bump_reg sp) (EReg xid true b)).
+    pose proof (auto_local_accepted (e_detach E) (busy_on (s_brs s1) conn (s_nop s1)) slow
+                  (e_fault E START (s_cnt s1 START)) (e_fault E STMT (s_cnt s1 STMT))
                   (e_fault E END_ (s_cnt s1 END_)) (e_fault E END_ (S (s_cnt s1 END_)))
-                  (e_fault E PREPARE (s_cnt s1 PREPARE)) (e_fault E ROLLBACK (s_cnt s1 ROLLBACK))) as L.
-    destruct (auto_local _ _ _ _ _ _ _) as [[[t d] kept] o].
-    assert (L' : exists q, lfrom strict S0 t = Some q /\ agree q d /\ (is_prepared d = true -> kept = true)).
-    { apply L. intros Hs Hf. exact (Hend Hs _ Hf). }
-    clear L. destruct L' as (q & Lq & Aq & Kq).
+                  (e_fault E PREPARE (s_cnt s1 PREPARE)) (e_fault E ROLLBACK (s_cnt s1 ROLLBACK))
+                  (e_fault E ROLLBACK (S (s_cnt s1 ROLLBACK)))) as L.
+    destruct (auto_local _ _ _ _ _ _ _ _ _ _) as [[[[t d] kept] o] act].
+    destruct L as (q & Lq & Aq).
     set (id := xa_id xid b).
-    destruct I as [I1 I2 I3 I4 I5 I6].
-    assert (Fresh : forall r, In r (s_brs s) -> rid r <> id).
+    destruct Ip as [I1 I2 I3 I4 I5 I6].
+    assert (Fresh : forall r, In r (s_brs sp) -> rid r <> id).
     { intros r Hr X. destruct (I2 r Hr) as (k & K1 & K2).
       apply xa_id_inj in X. destruct X as [_ X]. rewrite K2 in X. apply Hbid in X. lia. }
-    assert (T0 : tr s id = []).
+    assert (T0 : tr sp id = []).
     { apply I3; [apply xa_id_nonempty|exact Fresh]. }
     subst s1. split; norm.
     + intros r [<-|Hr].
-      * exists q. norm. replace (rid (mk_br (s_nop s) xid b (s_nconn s) d kept)) with id by reflexivity.
+      * exists q. norm. replace (rid (mk_br (s_nop sp) xid b conn d kept (negb (start_ok t)))) with id by reflexivity.
         rewrite bytes_eqb_refl, T0. cbn [app]. auto.
-      * destruct (I1 r Hr) as (q' & A & B & C). exists q'. norm.
+      * destruct (I1 r Hr) as (q' & A & B). exists q'. norm.
         rewrite (neq_eqb id (rid r)) by (intro X; exact (Fresh r Hr (eq_sym X))). norm. auto.
     + intros r [<-|Hr].
-      * exists (s_nreg s). cbn. split; [lia|reflexivity].
+      * exists (s_nreg sp). cbn. split; [lia|reflexivity].
       * destruct (I2 r Hr) as (k & K1 & K2). exists k. split; [lia|auto].
     + intros id' N O. norm.
       rewrite (neq_eqb id id') by (intro X; exact (O _ (or_introl eq_refl) X)). norm.
@@ -308,132 +364,119 @@ Proof.
       * exfalso. exact (Fresh r1 H1 X).
 Qed.
 
-Lemma step_local s : Inv strict E s -> Inv strict E (do_local E s).
+Lemma step_local s : Inv E s -> Inv E (do_local E s).
 Proof.
   intros [I1 I2 I3 I4 I5 I6]. unfold do_local.
-  set (t := [(STMT, if e_fault E STMT (s_cnt (bump_conn s) STMT) then RFault else ROk)]).
+  set (t := [(STMT, if e_fault E STMT (s_cnt (set_opconn (bump_conn s) (s_nconn s)) STMT) then RFault else ROk)]).
   split; norm; auto.
-  - intros r Hr. destruct (I1 r Hr) as (q & A & B & C). exists q. norm.
+  - intros r Hr. destruct (I1 r Hr) as (q & A & B). exists q. norm.
     rewrite (neq_eqb [] (rid r)) by (intro X; symmetry in X; revert X; apply xa_id_nonempty). norm. auto.
   - intros id' N O. norm. rewrite (neq_eqb [] id') by congruence. norm.
     specialize (I3 id' N O). norm. exact I3.
   - intros r Hr. pose proof (I4 r Hr). lia.
 Qed.
 
-Lemma step_skip s : Inv strict E s -> Inv strict E (finish s OSkipped).
-Proof.
-  intros [I1 I2 I3 I4 I5 I6]. split; norm.
-  - exact I1.
-  - exact I2.
-  - exact I3.
-  - intros r Hr. pose proof (I4 r Hr). lia.
-  - exact I5.
-  - exact I6.
-Qed.
-
-Lemma in_put_new r r' l : In r l -> r_op r' = r_op r -> In r' (put_br r' l).
-Proof.
-  intros H Eo. induction l as [|y l IH]; cbn; [destruct H|].
-  destruct (Nat.eqb (r_op y) (r_op r')) eqn:Z; [now left|]. right. destruct H as [->|H].
-  - rewrite Eo, PeanoNat.Nat.eqb_refl in Z. discriminate.
-  - now apply IH.
-Qed.
-
-Lemma in_put_old x r' l : In x l -> r_op x <> r_op r' -> In x (put_br r' l).
-Proof.
-  intros H Eo. induction l as [|y l IH]; cbn; [destruct H|].
-  destruct (Nat.eqb (r_op y) (r_op r')) eqn:Z.
-  - apply PeanoNat.Nat.eqb_eq in Z. destruct H as [->|H]; [contradiction|now right].
-  - destruct H as [->|H]; [now left|right; now apply IH].
-Qed.
-
-Lemma nodup_op_eq l x r : NoDup (map r_op l) -> In x l -> In r l -> r_op x = r_op r -> x = r.
-Proof.
-  induction l as [|y l IH]; intros ND Hx Hr Eo; [destruct Hx|].
-  cbn in ND. inversion ND as [|? ? Hn ND']; subst.
-  destruct Hx as [->|Hx], Hr as [->|Hr]; auto.
-  - exfalso. apply Hn. rewrite Eo. now apply in_map.
-  - exfalso. apply Hn. rewrite <- Eo. now apply in_map.
-Qed.
-
-Lemma step_p2 s t commit stranger : Inv strict E s -> Inv strict E (do_p2 E s t commit stranger).
+Lemma step_p2 s t commit stranger : Inv E s -> Inv E (do_p2 E s t commit stranger).
 Proof.
   intro I. unfold do_p2.
   destruct (find_br t (s_brs s)) as [r|] eqn:F; [|now apply step_skip].
-  destruct (is_prepared (r_db r) && negb (r_fin r)) eqn:G; [|now apply step_skip].
-  apply andb_true_iff in G. destruct G as [G1 G2]. apply negb_true_iff in G2.
+  destruct ((is_prepared (r_db r) || negb commit && r_sfail r) && negb (r_fin r)); [|now apply step_skip].
   apply find_br_in in F. destruct F as [Fin Fop].
   destruct I as [I1 I2 I3 I4 I5 I6].
-  destruct (I1 r Fin) as (q & A & B & C).
+  destruct (I1 r Fin) as (q & A & B).
+  set (strg := stranger && is_prepared (r_db r)).
   set (c := if commit then COMMIT else ROLLBACK).
-  pose proof (p2_local_legal (e_detach E) (e_fault E c (s_cnt s c)) (r_db r) (r_kept r) commit stranger q B G1 (C G2)) as L.
-  destruct (p2_local _ _ _ _ _ _) as [[cr d] kept1].
-  destruct L as (q' & L1 & L2 & L3).
-  assert (Lq : lfrom strict q [cr] = Some q') by (destruct strict; assumption).
+  set (sk := if strg then set_brs (add_ev s (EKill (r_conn r))) (upd_br unkeep t (kill_conn (r_conn r) (s_brs s))) else s).
+  set (d := if strg then srv_kill (r_db r) else r_db r).
+  set (kept := if strg then false else r_kept r).
+  set (conn := if kept then r_conn r else s_nconn sk).
+  assert (Ad : agree q d) by (unfold d; destruct strg; [now apply agree_kill|assumption]).
+  pose proof (p2_local_accepted (e_detach E) (e_fault E c (s_cnt sk c)) d kept (busy_on (s_brs sk) conn t) commit q Ad) as L.
+  destruct (p2_local _ _ _ _ _ _) as [cr d'].
+  destruct L as (q' & L1 & L2).
   set (id := xa_id (r_xid r) (r_b r)).
-  set (r' := {| r_op := r_op r; r_xid := r_xid r; r_b := r_b r; r_conn := r_conn r; r_db := d; r_kept := false; r_fin := true |}).
-  assert (Rid : rid r' = rid r) by reflexivity.
-  assert (Other : forall x, In x (s_brs s) -> r_op x <> r_op r' -> bytes_eqb id (rid x) = false).
-  { intros x Hx Hn. apply neq_eqb. intro X. apply Hn. cbn [r' r_op]. apply (I6 x r Hx Fin). now rewrite <- X. }
-  destruct kept1, stranger; (split; norm; auto;
-  [ intros x Hx; destruct (put_br_in r' _ x I5 Hx) as [->|[Hx1 Hx2]];
-    [ exists q'; norm; rewrite Rid; fold id; rewrite bytes_eqb_refl, lfrom_app; norm;
-      change (xa_id (r_xid r) (r_b r)) with (rid r); rewrite A; repeat split; auto; cbn; discriminate
-    | destruct (I1 x Hx1) as (qx & Ax & Bx & Cx); exists qx; norm; rewrite (Other x Hx1 Hx2); norm; auto ]
-  | intros x Hx; destruct (put_br_in r' _ x I5 Hx) as [->|[Hx1 Hx2]]; [exact (I2 r Fin)|exact (I2 x Hx1)]
-  | intros id' N O; norm;
-    rewrite (neq_eqb id id') by (intro X; exact (O r' (in_put_new r r' _ Fin eq_refl) X)); norm;
-    specialize (I3 id' N); norm; apply I3; intros x Hx Y;
-    destruct (PeanoNat.Nat.eq_dec (r_op x) (r_op r)) as [Eo|Eo];
-    [ rewrite (nodup_op_eq _ x r I5 Hx Fin Eo) in Y; exact (O r' (in_put_new r r' _ Fin eq_refl) Y)
-    | exact (O x (in_put_old x r' _ Hx Eo) Y) ]
-  | intros x Hx; destruct (put_br_in r' _ x I5 Hx) as [->|[Hx1 Hx2]];
-    [ cbn; pose proof (I4 r Fin); lia | pose proof (I4 x Hx1); lia ]
-  | rewrite put_br_map_op; exact I5
-  | intros x1 x2 H1 H2 X;
-    destruct (put_br_in r' _ x1 I5 H1) as [->|[A1 B1]], (put_br_in r' _ x2 I5 H2) as [->|[A2 B2]]; auto;
-    [ cbn [r' r_op]; symmetry; apply (I6 x2 r A2 Fin); now rewrite <- X
-    | cbn [r' r_op]; apply (I6 x1 r A1 Fin); now rewrite X ] ]).
+  set (sb := if kept then sk else bump_conn sk).
+  set (se := emit sb conn id [cr]).
+  set (cs := get_cst se conn).
+  set (rel := if kept && c_kept cs then c_cur cs else None).
+  set (sr := if kept && c_kept cs then set_conn se conn {| c_active := c_active cs; c_kept := false; c_cur := c_cur cs |} else se).
+  assert (Jr : s_jour sr = List.rev (map (fun x => ESql conn (fst x) id (snd x)) [cr]) ++ s_jour sk).
+  { unfold sr, se, sb. destruct (kept && c_kept cs), kept; reflexivity. }
+  assert (Jk : forall id', cmds_of id' (List.rev (s_jour sk)) = cmds_of id' (List.rev (s_jour s))).
+  { intro id'. unfold sk. destruct strg; [|reflexivity]. cbn [set_brs add_ev s_jour]. rewrite cmds_rev_cons. cbn [cmds_of]. now rewrite app_nil_r. }
+  assert (Tr : forall id', tr sr id' = tr s id' ++ (if bytes_eqb id id' then [cr] else [])).
+  { intro id'. unfold tr. rewrite Jr, cmds_rev_emit, Jk. reflexivity. }
+  assert (Lst : upd_br (fun x => set_db_kept d' (r_kept x) true x) t (s_brs sr) = 
+                match rel with Some o => upd_br unkeep o (upd_br (fun x => set_db_kept d' (r_kept x) true x) t (s_brs sr)) | None => upd_br (fun x => set_db_kept d' (r_kept x) true x) t (s_brs sr) end
+                \/ True) by (right; exact I).
+  clear Lst.
+  assert (Bs : s_brs sr = if strg then upd_br unkeep t (kill_conn (r_conn r) (s_brs s)) else s_brs s).
+  { unfold sr, se, sb, sk. destruct (kept && c_kept cs), kept, strg; reflexivity. }
+  assert (Final : (match rel with Some o => upd_br unkeep o (upd_br (fun x => set_db_kept d' (r_kept x) true x) t (s_brs sr))
+                   | None => upd_br (fun x => set_db_kept d' (r_kept x) true x) t (s_brs sr) end)
+                  = p2_list strg (r_conn r) t d' rel (s_brs s)).
+  { unfold p2_list. rewrite Bs. reflexivity. }
+  assert (Nr : s_nreg sr = s_nreg s) by (unfold sr, se, sb, sk; destruct (kept && c_kept cs), kept, strg; reflexivity).
+  assert (No : s_nop sr = s_nop s) by (unfold sr, se, sb, sk; destruct (kept && c_kept cs), kept, strg; reflexivity).
+  change (Inv E (finish (set_brs sr match rel with Some o => upd_br unkeep o (upd_br (fun x => set_db_kept d' (r_kept x) true x) t (s_brs sr))
+                   | None => upd_br (fun x => set_db_kept d' (r_kept x) true x) t (s_brs sr) end) (OP2 (res_ok (snd cr))))).
+  rewrite Final.
+  assert (RidOf : forall x y, r_xid x = r_xid y -> r_b x = r_b y -> rid x = rid y) by (intros x y H1 H2; unfold rid; now rewrite H1, H2).
+  split; cbn [finish set_brs s_brs s_nreg s_nop]; rewrite ?Nr, ?No.
+  - intros x Hx. destruct (p2_list_in _ _ _ _ _ _ _ Hx) as (y & Hy & Eo & Ex & Eb & Db).
+    unfold rec_ok. change (tr (finish (set_brs sr (p2_list strg (r_conn r) t d' rel (s_brs s))) (OP2 (res_ok (snd cr)))) (rid x)) with (tr sr (rid x)).
+    rewrite (RidOf x y Ex Eb), Tr.
+    destruct Db as [[Yt Dx]|[Yt Dx]].
+    + assert (y = r) by (apply (nodup_op_eq _ y r I5 Hy Fin); congruence). subst y.
+      exists q'. fold id. rewrite bytes_eqb_refl, accepted_from_app, A, Dx. auto.
+    + destruct (I1 y Hy) as (qy & Ay & By). exists qy.
+      rewrite (neq_eqb id (rid y)).
+      * rewrite app_nil_r. split; [exact Ay|]. destruct Dx as [-> | ->]; [assumption|now apply agree_kill].
+      * intro X. apply Yt. rewrite <- Fop. apply (I6 y r Hy Fin). now rewrite <- X.
+  - intros x Hx. destruct (p2_list_in _ _ _ _ _ _ _ Hx) as (y & Hy & Eo & Ex & Eb & Db). rewrite Eb. exact (I2 y Hy).
+  - intros id' N O.
+    change (tr (finish (set_brs sr (p2_list strg (r_conn r) t d' rel (s_brs s))) (OP2 (res_ok (snd cr)))) id') with (tr sr id').
+    rewrite Tr. rewrite (neq_eqb id id').
+    + rewrite app_nil_r. apply (I3 id' N). intros y Hy Y.
+      destruct (p2_list_has strg (r_conn r) t d' rel _ y Hy) as (x & Hx & Rx & _). apply (O x Hx). now rewrite Rx.
+    + intro X. destruct (p2_list_has strg (r_conn r) t d' rel _ r Fin) as (x & Hx & Rx & _). apply (O x Hx). now rewrite Rx.
+  - intros x Hx. destruct (p2_list_in _ _ _ _ _ _ _ Hx) as (y & Hy & Eo & _). rewrite Eo. pose proof (I4 y Hy). lia.
+  - rewrite p2_list_ops. exact I5.
+  - intros x1 x2 H1 H2 X.
+    destruct (p2_list_in _ _ _ _ _ _ _ H1) as (y1 & Hy1 & Eo1 & Ex1 & Eb1 & _).
+    destruct (p2_list_in _ _ _ _ _ _ _ H2) as (y2 & Hy2 & Eo2 & Ex2 & Eb2 & _).
+    rewrite Eo1, Eo2. apply (I6 y1 y2 Hy1 Hy2). rewrite <- (RidOf x1 y1 Ex1 Eb1), <- (RidOf x2 y2 Ex2 Eb2). exact X.
 Qed.
 
-Lemma step_inv s o : Inv strict E s -> Inv strict E (step E s o).
+Lemma step_inv s o : Inv E s -> Inv E (step E s o).
 Proof.
   destruct o; cbn [step]; [apply step_auto|apply step_local|apply step_p2|apply step_skip].
 Qed.
 
-Lemma run_inv_from p : forall s, Inv strict E s -> Inv strict E (fold_left (step E) p s).
+Lemma run_inv_from p : forall s, Inv E s -> Inv E (fold_left (step E) p s).
 Proof. induction p as [|o p IH]; intros s I; cbn; [assumption|]. apply IH. now apply step_inv. Qed.
 
-Lemma run_inv p : Inv strict E (run E p).
+Lemma run_inv p : Inv E (run E p).
 Proof. apply run_inv_from. apply inv_init. Qed.
 
-Lemma run_lfrom p id : id <> [] -> exists q, lfrom strict S0 (cmds_of id (journal E p)) = Some q.
+Lemma run_accepted p id : id <> [] -> exists q, accepted_from S0 (cmds_of id (journal E p)) = Some q.
 Proof.
   intro N. pose proof (run_inv p) as I. unfold journal. fold (tr (run E p) id).
   destruct (existsb (fun r => bytes_eqb (rid r) id) (s_brs (run E p))) eqn:X.
   - apply existsb_exists in X. destruct X as (r & Hr & Hb). apply bytes_eqb_eq in Hb. subst id.
-    destruct (i_recs _ _ _ I r Hr) as (q & A & _). now exists q.
-  - rewrite (i_other _ _ _ I id N).
-    + exists S0. destruct strict; reflexivity.
+    destruct (i_recs _ _ I r Hr) as (q & A & _). now exists q.
+  - rewrite (i_other _ _ I id N).
+    + exists S0. reflexivity.
     + intros r Hr Y. assert (existsb (fun r => bytes_eqb (rid r) id) (s_brs (run E p)) = true).
       { apply existsb_exists. exists r. split; [assumption|]. rewrite Y. apply bytes_eqb_refl. }
       congruence.
 Qed.
 End Step.
 
-Theorem legal_all E p id :
-  uniq_bid E -> no_double_end E -> id <> [] -> legal_trace (cmds_of id (journal E p)) = true.
-Proof.
-  intros U D N. unfold legal_trace.
-  destruct (run_lfrom true E U (fun _ => D) p id N) as (q & Hq). cbn [lfrom] in Hq. now rewrite Hq.
-Qed.
-
 Theorem accepted_all E p id :
   uniq_bid E -> id <> [] -> accepted_legal (cmds_of id (journal E p)) = true.
 Proof.
-  intros U N. unfold accepted_legal.
-  destruct (run_lfrom false E U (fun H => False_ind _ (Bool.diff_false_true H)) p id N) as (q & Hq).
-  cbn [lfrom] in Hq. now rewrite Hq.
+  intros U N. unfold accepted_legal. destruct (run_accepted E U p id N) as (q & Hq). now rewrite Hq.
 Qed.
 
 (* never COMMIT without a successful PREPARE, spelled out on traces *)
@@ -475,8 +518,8 @@ Proof.
   cbn in H. destruct c; cbn in *; try discriminate; auto.
 Qed.
 
-Lemma auto_local_shape detach fS fM fE fE2 fP fR :
-  let '(t, _, _, _) := auto_local detach fS fM fE fE2 fP fR in
+Lemma auto_local_shape detach busy slow fS fM fE fE2 fP fR fR2 :
+  let '(t, _, _, _, _) := auto_local detach busy slow fS fM fE fE2 fP fR fR2 in
   exists r1 rest, t = (START, r1) :: rest /\ count_cmd START rest = 0%nat.
 Proof. bools; cbn; eexists; eexists; split; reflexivity. Qed.
 
@@ -496,28 +539,41 @@ Definition reg_inv (s : st) : Prop := reg_scan None (List.rev (s_jour s)) = Some
 
 Lemma reg_step E s o : reg_inv s -> reg_inv (step E s o).
 Proof.
-  unfold reg_inv. intro H. destruct o as [g| |t c x|]; cbn [step].
-  - unfold do_auto. destruct (e_refuse E (s_nreg s)).
-    + cbn [finish add_ev bump_conn bump_reg s_jour List.rev]. now rewrite reg_scan_app, H.
-    + pose proof (auto_local_shape (e_detach E)
-        (e_fault E START (s_cnt (add_ev (bump_conn (bump_reg s)) (EReg (e_xid E g) true (e_bid E (s_nreg s)))) START))
-        (e_fault E STMT (s_cnt (add_ev (bump_conn (bump_reg s)) (EReg (e_xid E g) true (e_bid E (s_nreg s)))) STMT))
-        (e_fault E END_ (s_cnt (add_ev (bump_conn (bump_reg s)) (EReg (e_xid E g) true (e_bid E (s_nreg s)))) END_))
-        (e_fault E END_ (S (s_cnt (add_ev (bump_conn (bump_reg s)) (EReg (e_xid E g) true (e_bid E (s_nreg s)))) END_)))
-        (e_fault E PREPARE (s_cnt (add_ev (bump_conn (bump_reg s)) (EReg (e_xid E g) true (e_bid E (s_nreg s)))) PREPARE))
-        (e_fault E ROLLBACK (s_cnt (add_ev (bump_conn (bump_reg s)) (EReg (e_xid E g) true (e_bid E (s_nreg s)))) ROLLBACK))) as L.
-      destruct (auto_local _ _ _ _ _ _ _) as [[[t d] kept] o]. destruct L as (r1 & rest & -> & Hc).
-      cbn [finish set_brs emit add_ev bump_conn bump_reg s_jour].
+  unfold reg_inv. intro H. destruct o as [g via slow| |t c x|]; cbn [step].
+  - unfold do_auto.
+    set (reuse := match via with Some t => lookup t (s_opconn s) | None => None end).
+    set (conn := match reuse with Some c => c | None => s_nconn s end).
+    set (sp := set_opconn match reuse with Some _ => s | None => bump_conn s end conn).
+    assert (Jp : s_jour sp = s_jour s) by (unfold sp; destruct reuse; reflexivity).
+    destruct (c_active (get_cst s conn)); [cbn [finish s_jour]; now rewrite Jp|].
+    destruct (e_refuse E (s_nreg s)).
+    + cbn [finish add_ev bump_reg set_conn s_jour List.rev]. now rewrite Jp, reg_scan_app, H.
+    + set (s1 := add_ev (bump_reg sp) (EReg (e_xid E g) true (e_bid E (s_nreg s)))).
+      pose proof (auto_local_shape (e_detach E) (busy_on (s_brs s1) conn (s_nop s1)) slow
+        (e_fault E START (s_cnt s1 START)) (e_fault E STMT (s_cnt s1 STMT)) (e_fault E END_ (s_cnt s1 END_))
+        (e_fault E END_ (S (s_cnt s1 END_))) (e_fault E PREPARE (s_cnt s1 PREPARE))
+        (e_fault E ROLLBACK (s_cnt s1 ROLLBACK)) (e_fault E ROLLBACK (S (s_cnt s1 ROLLBACK)))) as L.
+      destruct (auto_local _ _ _ _ _ _ _ _ _ _) as [[[[t d] kept] o] act]. destruct L as (r1 & rest & -> & Hc).
+      subst s1. cbn [finish set_brs set_conn emit add_ev bump_reg s_jour]. rewrite Jp.
       rewrite rev_app_distr, rev_involutive. cbn [List.rev map fst snd].
-      rewrite <- app_assoc, reg_scan_app. rewrite H. rewrite <- app_comm_cons, app_nil_l, reg_scan_reg, reg_scan_start. now apply reg_scan_nostart.
-  - unfold do_local. cbn [finish emit bump_conn s_jour]. apply reg_emit; [reflexivity|exact H].
+      rewrite <- app_assoc, reg_scan_app. rewrite H. rewrite <- app_comm_cons, app_nil_l, reg_scan_reg, reg_scan_start.
+      now apply reg_scan_nostart.
+  - unfold do_local. cbn [finish emit set_opconn bump_conn s_jour]. apply reg_emit; [reflexivity|exact H].
   - unfold do_p2. destruct (find_br t (s_brs s)) as [r|]; [|exact H].
-    destruct (is_prepared (r_db r) && negb (r_fin r)); [|exact H].
-    destruct (p2_local _ _ _ _ _ _) as [[[k rs] d] kept1] eqn:P.
+    destruct ((is_prepared (r_db r) || negb c && r_sfail r) && negb (r_fin r)); [|exact H].
+    set (strg := x && is_prepared (r_db r)).
+    set (sk := if strg then set_brs (add_ev s (EKill (r_conn r))) (upd_br unkeep t (kill_conn (r_conn r) (s_brs s))) else s).
+    assert (Hk : reg_scan None (List.rev (s_jour sk)) = Some None).
+    { unfold sk. destruct strg; [|exact H]. cbn [set_brs add_ev s_jour List.rev]. now rewrite reg_scan_app, H. }
+    clearbody sk.
+    destruct (p2_local _ _ _ _ _ _) as [[k rs] d'] eqn:P.
     assert (K : count_cmd START [(k, rs)] = 0%nat).
-    { unfold p2_local in P. injection P as <- _ _ _. destruct c; reflexivity. }
-    destruct kept1, x; cbn [finish set_brs emit add_ev bump_conn s_jour];
-      apply reg_emit; auto; cbn [List.rev]; rewrite reg_scan_app, H; reflexivity.
+    { unfold p2_local in P. injection P as <- _ _. destruct c; reflexivity. }
+    match goal with |- context[set_brs ?S _] => assert (J : s_jour S =
+       List.rev (map (fun cr => ESql (if (if strg then false else r_kept r) then r_conn r else s_nconn sk) (fst cr) (xa_id (r_xid r) (r_b r)) (snd cr)) [(k, rs)]) ++ s_jour sk) end.
+    { destruct (if strg then false else r_kept r); cbn [s_jour emit bump_conn set_conn];
+        match goal with |- context[if ?b then _ else _] => destruct b end; reflexivity. }
+    cbn [finish set_brs s_jour]. rewrite J. now apply reg_emit.
   - exact H.
 Qed.
 
